@@ -165,7 +165,8 @@ def build(q, env, lib, knobs=None):
                     kw[kn] = knobs[kn]
             if "shuffle_method" in knobs and knobs.get("split_out") not in (None, 1):
                 kw["shuffle_method"] = knobs["shuffle_method"]
-        g = x.groupby(list(q["by"]), sort=bool(q.get("sort", True)))
+        gkw = {"dropna": False} if q.get("dropna") is False else {}
+        g = x.groupby(list(q["by"]), sort=bool(q.get("sort", True)), **gkw)
         return getattr(g, q["f"])(**kw)
     if op == "merge":
         other = env[q["other"]]
